@@ -26,4 +26,5 @@ INVARIANT KeepsKnown
 INVARIANT Faithful
 INVARIANT Associative
 INVARIANT TripleIntersection
+INVARIANT PairwiseCompatible
 CHECK_DEADLOCK FALSE
